@@ -215,9 +215,9 @@ def r1b_gate(ctx, prog):
                 r.ok('SoftHSM::' + api, site, '%d abstract states' % len(hits), file=f['file'], line=hits[0]['line'])
 
 
-def r1cd_typestate(ctx, prog):
-    rc_ = ctx.rule('C12.R1c', 'a finished or failed operation is gone: resetOp() on every exit after a finalising or failed advancing call', floor=25, engine='E3')
-    rd = ctx.rule('C12.R1d', 'size query and CKR_BUFFER_TOO_SMALL leave the operation active and unchanged', floor=12, engine='E3')
+def r1cd_typestate(ctx, prog, rule_ids=('C12.R1c', 'C12.R1d')):
+    rc_ = ctx.rule(rule_ids[0], 'a finished or failed operation is gone: resetOp() on every exit after a finalising or failed advancing call', floor=25, engine='E3')
+    rd = ctx.rule(rule_ids[1], 'size query and CKR_BUFFER_TOO_SMALL leave the operation active and unchanged', floor=12, engine='E3')
     seen = set()
     for api, op, g, finishing, sv, opv in work_functions(prog):
         if g['qname'] in seen or not sv:
